@@ -165,7 +165,8 @@ top frame; `ReturnSet s` = that slot holds a value; `newNull s` = allocate 空 (
 `passVerdict r s` = how a loop reads the end (`r`, `s`) of a pass: `some true` go on (normal end with the slot
 empty, or 继续循环), `some false` stop (结束循环, or normal end with the slot set), `none` propagate;
 `WhilePasses n c body k s s1` = k complete passes (condition evaluated first and 真 each time);
-`ListPasses … i items s s1` / `DictPasses … target keys s s1` = complete passes for those elements in that order. -/
+`ListPasses … i items s s1` / `DictPasses … target keys s s1` = complete passes for those elements in that order
+(for a dictionary: a key that an earlier pass removed is skipped — no binding, no body, machine unchanged). -/
 
 
 /-! ## 1. 输出 -/
@@ -681,6 +682,16 @@ example : ∃ s3, evalStmt 7 (.iterate 0 pq [kId, vId] (some [.empty 0])) vm0 = 
       (run_ok (iterBind 6 2 _ _ _) _ K) (run_ok (evalPureStmtBlock 6 _) _ K) K
       (.cons (cell_hm _ [("p", 0), ("q", 1)] ["p", "q"] K) (v := 1) K
         (run_ok (iterBind 6 2 _ _ _) _ K) (run_ok (evalPureStmtBlock 6 _) _ K) K (.nil _)))⟩
+
+/-- a key that is gone when its turn comes is skipped (`DictPasses.skip`): order `p, q`, values `[p = "a"]` — one
+pass for `p`, none for `q`, the loop ends normally -/
+example : ∃ s3, evalStmt 7 (.iterate 0 (.id dId) [] (some [.empty 0])) vmGone = newNull s3 :=
+  ⟨_, iterate_dict_insertion_order 6 0 (.id dId) [] (some [.empty 0]) vmGone _ _ _ 1 _ [("p", 0)] ["p", "q"]
+    (run_ok (evalExpr 6 (.id dId)) _ K) (run_ok (iterSlots []) _ K)
+    (cell_hm _ [("p", 0)] ["p", "q"] K)
+    (.cons (cell_hm _ [("p", 0)] ["p", "q"] K) (v := 0) K
+      (run_ok (iterBind 6 0 _ _ _) _ K) (run_ok (evalPureStmtBlock 6 _) _ K) K
+      (.skip (cell_hm _ [("p", 0)] ["p", "q"] K) K (.nil _)))⟩
 
 /-- 遍历 over anything but a list or a dictionary is error 80 -/
 theorem iterate_non_collection_is_error (n ln : Nat) (e : Expr) (names : List Ident) (body : Option (List Stmt))
